@@ -16,6 +16,7 @@
  *   mode   f = carquet_reader_open (stdio)   m = carquet_reader_open with use_mmap   b = carquet_reader_open_buffer
  *   verify 0|1 verify_checksums, optionally followed by further carquet_reader_options_t fields:
  *          ,b<buffer_size>  ,t<num_threads>      e.g. 1,b219,t1   (fields not given keep carquet_reader_options_init's value)
+ *          ,p<k> (bat only): column readers of row group 0 are created, read k values and are freed on the same handle first
  *   file   w:<codec>:<coldefs>:<rowgroups>   written with carquet_writer (page_size = 1: every write_batch = one page)
  *            coldefs   = name=type[?] , ...       type = bool|i32|i64|f32|f64|ba|fl<N>   ? = OPTIONAL
  *            rowgroups = rg | rg ...      rg = chunk ; chunk ... (one per column)   chunk = page / page ...
@@ -302,15 +303,18 @@ static int ensure_file(const char* spec, char* why, size_t whylen) {
 static long long g_opt_buffer = -1;
 static int g_opt_threads = -1;
 static int g_opt_null = 0;             /* "d...": pass options = NULL (library defaults) where the API allows it */
+static long long g_opt_pre = -1;       /* ",p<k>": before the batch reader is created, every chunk of row group 0 is opened
+                                          with a column reader on the same reader handle, k values are read, the reader freed */
 
 static int parse_opts(const char* tok) {
-    g_opt_buffer = -1; g_opt_threads = -1;
+    g_opt_buffer = -1; g_opt_threads = -1; g_opt_pre = -1;
     g_opt_null = (tok[0] == 'd');
     const char* p = strchr(tok, ',');
     while (p) {
         p++;
         if (*p == 'b') g_opt_buffer = atoll(p + 1);
         else if (*p == 't') g_opt_threads = atoi(p + 1);
+        else if (*p == 'p') g_opt_pre = atoll(p + 1);
         p = strchr(p, ',');
     }
     return g_opt_null ? 1 : atoi(tok);
@@ -495,6 +499,20 @@ static void run_bat(char mode, int verify, const char* bs_tok, char* proj) {
             else { printf("ERR unresolvable-projection-accepted\n"); carquet_batch_reader_free(br0); }
             carquet_reader_close(rd);
             return;
+        }
+    }
+    if (g_opt_pre >= 0 && carquet_reader_num_row_groups(rd) > 0) {
+        /* other column readers of the same chunks lived on this reader handle before: nothing they did may remain */
+        for (int c = 0; c < ncols; c++) {
+            colinfo_t pc;
+            if (col_info(rd, c, &pc) != 0) continue;
+            carquet_column_reader_t* cr = carquet_reader_get_column(rd, 0, c, &err);
+            if (!cr) continue;
+            long long k = g_opt_pre > 0 ? g_opt_pre : 1;
+            void* v = malloc((size_t)k * pc.vsize); int16_t* d = malloc(sizeof(int16_t) * (size_t)k); int16_t* r = malloc(sizeof(int16_t) * (size_t)k);
+            if (g_opt_pre > 0) { int64_t got = carquet_column_read_batch(cr, v, k, d, r); (void)got; }
+            free(v); free(d); free(r);
+            carquet_column_reader_free(cr);
         }
     }
     carquet_batch_reader_t* br = carquet_batch_reader_create(rd, null_cfg ? NULL : &cfg, &err);
